@@ -623,14 +623,22 @@ Definition al_witness_oracle (_ _ : list (list Z)) : bool := true.
 (* ---------- cross-check of the controlled-schedule harnesses of C01/C02 (ctl_cell.cpp) and C07/C08 (ctl_mutex.cpp):
    the number of operator new calls made by the scenario threads must be the number of coroutine frames the scenario
    creates (+ one node per callback waiter, which that harness allocates itself), whatever the schedule ---------- *)
-Definition cell_decl_allocs (l : list Z) : Z :=
-  match l with
-  | [1; k; d] => if (k =? 4) || (k =? 5) then 1 else 0          (* resolver that is an async coroutine *)
-  | [2; k] => if (k =? 0) || (k =? 4) || (k =? 2) then 1 else 0  (* coroutine waiters; callback waiter's CbCtx *)
-  | _ => 0
+(* thread kinds of ctl_cell.cpp: resolver 1 k d: k 4/5 an async coroutine (one frame), 7 a coroutine doing
+   `co_await promise(d)` (one frame), 0..3 and 6 no coroutine; waiter 2 k: k 0/4 a coroutine (one frame), 2 a callback
+   awaiter (that harness allocates its CbCtx node), 5 call_fn_future_awaiter: the FIRST such waiter owns the future as
+   its internal future and allocates nothing — the library must not create anything for it —, further ones are plain
+   callback awaiters (CbCtx node); 1/3 blocking threads (nothing).  Kinds outside these lists are never sent here. *)
+Fixpoint cell_allocs (seen_callfn : bool) (ops : list (list Z)) : Z :=
+  match ops with
+  | [] => 0
+  | [1; k; d] :: t => (if (k =? 4) || (k =? 5) || (k =? 7) then 1 else 0) + cell_allocs seen_callfn t
+  | [2; k] :: t =>
+      if k =? 5 then (if seen_callfn then 1 else 0) + cell_allocs true t
+      else (if (k =? 0) || (k =? 4) || (k =? 2) then 1 else 0) + cell_allocs seen_callfn t
+  | _ :: t => cell_allocs seen_callfn t
   end.
 Fixpoint sumz (l : list Z) : Z := match l with [] => 0 | x :: t => x + sumz t end.
-Definition alx_cell_run (ops : list (list Z)) : list (list Z) := [[20; sumz (map cell_decl_allocs ops)]].
+Definition alx_cell_run (ops : list (list Z)) : list (list Z) := [[20; cell_allocs false ops]].
 
 Fixpoint rounds_ok (l : list Z) : bool :=
   match l with
@@ -647,6 +655,6 @@ Definition alx_mutex_run (ops : list (list Z)) : list (list Z) := [[20; sumz (ma
 (* the cross-check property itself: observed operator new calls of the scenario = frames it creates
    (no line at all = the schedule deadlocked and the process was restarted: judged by C02/C07, not here) *)
 Definition alx_cell_oracle (ops obs : list (list Z)) : bool :=
-  match obs with [[20; k]] => k =? sumz (map cell_decl_allocs ops) | [] => true | _ => false end.
+  match obs with [[20; k]] => k =? cell_allocs false ops | [] => true | _ => false end.
 Definition alx_mutex_oracle (ops obs : list (list Z)) : bool :=
   match obs with [[20; k]] => k =? sumz (map mutex_decl_allocs ops) | [] => true | _ => false end.
